@@ -1670,7 +1670,9 @@ class Collection(object):
         if not self._store.is_created:
             return
         yield '_id_', {'key': [('_id', 1)]}
-        for name, information in self._store.indexes.items():
+        # Hand out a snapshot: the consumer (or another thread) may create or drop an index
+        # before it has read the whole listing.
+        for name, information in list(self._store.indexes.items()):
             yield name, information
 
     def list_indexes(self, session=None):
